@@ -557,7 +557,8 @@ impl<const N: usize> Ex<N> {
             }
             Viol::LeakedTouched => cls::GARBAGE | famcls,
         };
-        let _ = own;
+        // drain and constructor steps state "destroyed exactly once" themselves (C09, C12)
+        let c = c | (own & (cls::DRAIN | cls::CTOR));
         self.fail(c, format!("{viol:?} on element id={id} in `{what}` ({} hook violation(s) this step)", v.len()));
     }
 
